@@ -2,7 +2,7 @@ SPECIFICATION Spec
 CONSTANTS
   MaxNodes = 4
   Keys = {1}
-  Leafs = {101}
+  Leafs = {101, 160}
   Shapes = {200, 210}
   MaxLen = 2
   Acts = {"dict", "list", "clone", "flags", "forget"}
